@@ -72,6 +72,49 @@ def step (op : String) (gs : List (List Int)) : String :=
     | some (b, c, px) =>
       let u : SMap Rat := unitMap c px
       if exactOn u px then fmtMaps shape (List.replicate b (estimateUnit ratNum c px)) else "err Inexact"
+  | "window", [[w], [sn, sd]] =>
+    -- the exponents `(linspace(-1,1,W)[j] / sigma)^2` of the Gaussian window; `sd = 0` encodes `None`
+    let sigma : Option Rat := if sd = 0 then none else some ((sn : Rat) / (sd : Rat))
+    match gaussianActive sigma with
+    | none => "ok off"
+    | some s =>
+      let es := (List.range w.toNat).map fun j => gaussExponent ratNum (linspaceCoord ratNum ratWin) s w.toNat j
+      "ok " ++ fmtGroups [es.flatMap fun q => [q.num, (q.den : Int)]]
+  | "estgauss", [shape, [sn, sd], data, mask] =>
+    match dims shape with
+    | none => "err BadOp"
+    | some (b, c, px) =>
+      let w := (shape.dropLast.getLast?.getD 1).toNat
+      let sigma : Option Rat := if sd = 0 then none else some ((sn : Rat) / (sd : Rat))
+      if mask.length ≠ b * px then "err BadOp" else
+      match toMaps b c px data with
+      | none => "err BadOp"
+      | some ms =>
+        let as := (List.range b).map fun bi =>
+          estimateAcsImage ratNum ratWin id sigma w (ms.getD bi []) (fun p => ((mask.getD (bi * px + p) 0 : Int) : Rat))
+        if as.all (fun a => exactOn a px && exactOn (rssNormalise ratNum a) px) then
+          fmtMaps shape (as.map (estimateRSS ratNum))
+        else "err Inexact"
+  | "forward", [[ty], shape, calib, acs] =>
+    match dims shape with
+    | none => "err BadOp"
+    | some (b, c, px) =>
+      let t : Option MapType := if ty = 0 then some .unit else if ty = 1 then some .rssEstimate else if ty = 2 then some .espirit else none
+      if t == some .espirit && !espiritSupported shape.length then "err NotImplementedError" else
+      match t, toMaps b c px calib, toMaps b c px acs with
+      | some t, some cs, some as =>
+        let used := (cs.zip as).map fun (cm, a) =>
+          match t with
+          | .unit => (unitMap c px : SMap Rat)
+          | .rssEstimate => rssNormalise ratNum a
+          | .espirit => cm
+        if used.all (exactOn · px) && (t != .rssEstimate || as.all (exactOn · px)) then
+          fmtMaps shape ((cs.zip as).map fun (cm, a) => forwardMap ratNum t cm a c px)
+        else "err Inexact"
+      | _, _, _ => "err BadOp"
+  | "choice", [[mc, h2, h3, nd]] =>
+    let r := modelChoice (mc != 0) (h2 != 0) (h3 != 0) nd
+    if r = 4 then "err KeyError" else "ok " ++ toString r
   | "safediv", [a, b] =>
     if a.length ≠ b.length then "err BadOp" else
     let qs := List.zipWith (fun (x y : Int) => safeDivide ratNum (x : Rat) (y : Rat)) a b
